@@ -259,6 +259,13 @@ func VerifCtlForIn() {
 	if (kind+pat)%2 == 1 {
 		w.setKey("x", verifnd.Int64(), ast.Int) // the loop variable's name may also be a point key
 	}
+	outerX := pat == 3 && verifnd.Int(0, 1) == 1
+	if outerX {
+		// the loop variable's name may already be a variable of the enclosing block: the
+		// iteration scope then holds only the body's own locals, which still must not survive
+		w.setVar("x", int64(5), ast.Int)
+		verifnd.Reach("forin-loop-variable-shadows-outer")
+	}
 	bump := vc3Assign("cnt", ast.ADDEQ, vInt(1))
 	atC := vc3Cmp(ast.EQEQ, vIdent("cnt"), vInt(c))
 	body := []*ast.Node{w.rd(1, "x")}
@@ -274,6 +281,17 @@ func VerifCtlForIn() {
 	}
 	prog := []*ast.Node{vc3ForIn("x", iter, body), w.rd(7, "x"), w.rd(8, "cnt"), w.rd(9, "t")}
 	failed, defined := w.run(prog)
+	if outerX {
+		// what the loop variable itself denotes here is left open by the reference; the body's
+		// local `t` is a block-local of one iteration and must read as nil at the start of each
+		verifnd.Assert(!failed, "forin-runs-without-error")
+		for _, e := range vc3Trace {
+			if e.id == 2 {
+				verifnd.Assert(e.v == nil, "body-local-does-not-survive-the-iteration")
+			}
+		}
+		return
+	}
 	verifnd.Assert(!failed && defined, "forin-runs-without-error")
 	verifnd.Assert(vc3Count(66) == 0, "nothing-runs-after-jump-in-block")
 	if kind == 3 || (cls == 2 && kind == 0) {
